@@ -202,3 +202,4 @@ def run(ctx: Ctx) -> None:
     ctx.coverage["rule"] = ("one case per table row (backend, basis, Lindblad class, stochastic class, solver, initial state, atom-count class) instantiated as a real run; "
                             "quick: rows with <= 2 non-default factors + model-flagged rows with <= 3; thorough: all 2688 rows; every row is non-trivial (distinct input class)")
     ctx.coverage["exhaustive"] = not ctx.quick
+    ctx.coverage["distinct_violation_keys"] = sorted(set(ctx.violation_keys))
